@@ -37,6 +37,8 @@ def plane_of(path: Any) -> str:
         return "inflight"
     if p.startswith("metadata/manifests"):
         return "manifests"
+    if p.startswith("metadata/collecting"):
+        return "collecting"                          # announcements of collection runs (garbage_collector.COLLECTING_PATH)
     if p.startswith("metadata.version-hint") or p.startswith("metadata/version-hint") or p.endswith(".metadata.json") or p in ("metadata", "metadata/"):
         return "metadata"
     if p.startswith("data"):
@@ -47,7 +49,7 @@ def plane_of(path: Any) -> str:
 class StorageFaults:
     """Fault windows on a table handle's storage backend (instrumented from outside, per instance).
 
-    spec = {"plane": metadata|inflight|data|manifests, "ops": read|write|all, "start": "call"|"first-write",
+    spec = {"plane": metadata|inflight|data|manifests|collecting, "ops": read|write|all, "start": "call"|"first-write",
             "count": None (until the call ends) | n}
     While armed, every matching storage operation raises OSError.  "first-write" arms the window only once the
     call has performed its first write of any kind (i.e. after its up-front validation)."""
@@ -113,6 +115,47 @@ FAULT_SPECS = [
     {"plane": "data", "ops": "read", "start": "call", "count": None},
     {"plane": "manifests", "ops": "all", "start": "call", "count": None},
 ]
+
+
+# The GC-protection step of append_files for pre-built files (Transaction._protect_adopted_files: marker per file, refusal
+# while a collection run is announced, existence re-check, removal of the markers it wrote when anything fails).
+# Windows that hit exactly this step -- attached to calls OUTSIDE the main random stream (gen_tx_case draws them from a
+# generator of their own), so the histories generated before the step existed stay the same:
+PROTECT_SPECS = [
+    {"plane": "inflight", "ops": "write", "start": "call", "count": None},       # marker writes (and their removal) fail
+    {"plane": "collecting", "ops": "read", "start": "call", "count": None},      # the listing of announced runs fails
+    {"plane": "data", "ops": "read", "start": "first-write", "count": None},     # the existence re-check fails
+]
+# ... and what a collection run may have left under metadata/collecting while the call runs (call["collecting"]):
+#   announced  an announcement in force            -> CollectionInProgressError
+#   garbage    an announcement that cannot be read -> counts as a run in progress
+#   expired    started longer ago than its grace period: no run in progress, the call is not concerned
+COLLECTING = ["announced", "garbage", "expired"]
+
+
+def announce(root: str, how: Optional[str]) -> Optional[str]:
+    """Put the announcement `how` of a collection run under metadata/collecting (as GarbageCollector.announce_run would
+    have); returns its path (to withdraw it after the call)."""
+    import json
+    import time
+    if not how:
+        return None
+    d = os.path.join(root, "metadata", "collecting")
+    os.makedirs(d, exist_ok=True)
+    path = os.path.join(d, "run-c11.json")
+    now = time.time() * 1000
+    body = {"announced": json.dumps({"started_ms": now, "grace_period_ms": 3600000}),
+            "expired": json.dumps({"started_ms": now - 7200000, "grace_period_ms": 3600000}),
+            "garbage": "{not json"}[how]
+    with open(path, "w") as f:
+        f.write(body)
+    return path
+
+
+def prebuilt_markers(root: str) -> set:
+    """The in-flight markers under metadata/inflight that do not belong to files the library wrote itself."""
+    d = os.path.join(root, "metadata", "inflight")
+    return {n for n in os.listdir(d) if not n.startswith("auto_")} if os.path.isdir(d) else set()
 
 
 # what the caller of append_files claims about a file's content (DataFile.lower_bounds / upper_bounds)
@@ -250,7 +293,19 @@ def gen_tx_case(rng, ntx: int) -> Dict[str, Any]:
                         c["files"][k]["layout"] = copy.deepcopy(txs[-1]["open"]["arg"])
         if rng.random() < 0.1:
             txs[-1]["also_open"] = gen_open(rng, fields)
-    return {"kind": "tx", "fields": fields, "txs": txs, "seed": rng.getrandbits(30)}
+    seed = rng.getrandbits(30)
+    # the protection step of append_files: windows / announcements on calls that have no window yet, drawn from a
+    # generator of their own (the main stream -- and with it every history above -- is as it was without them)
+    r2 = random.Random(seed ^ 0x5EED)
+    for tx in txs:
+        for c in tx["calls"]:
+            if c.get("fault") or r2.random() >= (0.3 if c["op"] == "files" else 0.08):
+                continue
+            if r2.random() < 0.5:
+                c["fault"] = copy.deepcopy(r2.choice(PROTECT_SPECS))
+            else:
+                c["collecting"] = r2.choice(COLLECTING)
+    return {"kind": "tx", "fields": fields, "txs": txs, "seed": seed}
 
 
 def tx_case_json(case: Dict[str, Any]) -> Dict[str, Any]:
@@ -259,14 +314,17 @@ def tx_case_json(case: Dict[str, Any]) -> Dict[str, Any]:
         calls = []
         for c in tx["calls"]:
             if c["op"] == "files":
-                calls.append({"op": "files", "files": [{"kind": f["kind"], "rows": [enc_record(r) for r in f["rows"]],
+                calls.append({"op": "files", "files": [{"kind": f["kind"], "rows": [enc_record(r) for r in f.get("rows", [])],
                                                         **({"stats": f["stats"]} if f.get("stats") else {}),
+                                                        **({"ref": list(f["ref"])} if f.get("ref") else {}),
                                                         **({"layout": f["layout"]} if f.get("layout") else {})} for f in c["files"]]})
             else:
                 calls.append({"op": "records", "variant": c["variant"], "arg": c["arg"], "sid": c["sid"], "build": c.get("build", "fresh"),
                               "records": [enc_record(r) for r in c["records"]]})
             if c.get("fault"):
                 calls[-1]["fault"] = c["fault"]
+            if c.get("collecting"):
+                calls[-1]["collecting"] = c["collecting"]
         out["txs"].append({"handle": tx["handle"], "end": tx["end"], "calls": calls, **{k: tx[k] for k in ("open", "also_open") if tx.get(k)}})
     return out
 
@@ -277,14 +335,17 @@ def tx_case_unjson(j: Dict[str, Any]) -> Dict[str, Any]:
         calls = []
         for c in tx["calls"]:
             if c["op"] == "files":
-                calls.append({"op": "files", "files": [{"kind": f["kind"], "rows": [dec_record(r) for r in f["rows"]],
+                calls.append({"op": "files", "files": [{"kind": f["kind"], "rows": [dec_record(r) for r in f.get("rows", [])],
                                                         **({"stats": f["stats"]} if f.get("stats") else {}),
+                                                        **({"ref": list(f["ref"])} if f.get("ref") else {}),
                                                         **({"layout": f["layout"]} if f.get("layout") else {})} for f in c["files"]]})
             else:
                 calls.append({"op": "records", "variant": c["variant"], "arg": c["arg"], "sid": c["sid"], "build": c.get("build", "fresh"),
                               "records": [dec_record(r) for r in c["records"]]})
             if c.get("fault"):
                 calls[-1]["fault"] = c["fault"]
+            if c.get("collecting"):
+                calls[-1]["collecting"] = c["collecting"]
         out["txs"].append({"handle": tx["handle"], "end": tx["end"], "calls": calls, **{k: tx[k] for k in ("open", "also_open") if tx.get(k)}})
     return out
 
@@ -404,28 +465,37 @@ def run_tx_case(case: Dict[str, Any], root: str, filters_per_col: int = 1) -> Di
         pending: List[Tuple[Dict[str, str], Dict[str, Any]]] = []
         rejected_paths: List[str] = []
         any_accepted = False
+        built: Dict[Tuple[int, int], Any] = {}          # the pre-built files of this transaction, by (call, position)
         for ci, call in enumerate(tx["calls"]):
             b = observe(root)
-            cev: Dict[str, Any] = {"op": call["op"], "fault": call.get("fault")}
+            cev: Dict[str, Any] = {"op": call["op"], "fault": call.get("fault"), "collecting": call.get("collecting")}
             mine: List[Tuple[Dict[str, str], Dict[str, Any]]] = []
             paths: List[str] = []
+            announced = None
+            marks_before = prebuilt_markers(root)
             try:
                 if call["op"] == "files":
                     dfs = []
                     cev["files"] = []
                     for fi, spec in enumerate(call["files"]):
-                        df, rel, rows_seen, foot, claim = build_file(root, fields, spec, f"pre_{ti}_{ci}_{fi}")
+                        if spec["kind"] == "again":     # a file an earlier call of this transaction was given, once more
+                            df, rel, rows_seen, foot, claim = built[tuple(spec["ref"])]
+                        else:
+                            df, rel, rows_seen, foot, claim = build_file(root, fields, spec, f"pre_{ti}_{ci}_{fi}")
+                        built[(ci, fi)] = (df, rel, rows_seen, foot, claim)
                         dfs.append(df)
                         paths.append(rel)
                         cev["files"].append({"kind": spec["kind"], "footer": foot, "rows": rows_seen, "path": rel, "claim": claim,
-                                             "stats": spec.get("stats", "none")})
+                                             "stats": spec.get("stats", "none"), **({"ref": list(spec["ref"])} if spec.get("ref") else {})})
                         mine += [(opaque if set(r) == set(opaque) else {k: "opaque" for k in r}, r) for r in rows_seen]
+                    announced = announce(root, call.get("collecting"))
                     b = observe(root)               # the files were put there by the caller, before the call
                     inj.arm(call.get("fault"))
                     t.append_files(dfs)
                 else:
                     arg = call["arg"]
                     schema = build_schema(call.get("build", "fresh"), call["sid"], arg, fields, handle) if arg is not None else None
+                    announced = announce(root, call.get("collecting"))
                     inj.arm(call.get("fault"))
                     t.append_data(records=copy.deepcopy(call["records"]), schema=schema)
                     eff = arg if arg is not None else fields
@@ -441,10 +511,15 @@ def run_tx_case(case: Dict[str, Any], root: str, filters_per_col: int = 1) -> Di
                 cev["outcome"] = "rejected"
                 cev["error"] = type(e).__name__
                 cev["message"] = str(e)[:160]
-                rejected_paths += paths
+                rejected_paths += [p for p, sp in zip(paths, call.get("files", [])) if sp.get("kind") != "again"]
                 diff = same_table_state(b, observe(root))
                 if diff:
                     violations.append((f"tx-call-trace:{call['op']}", f"tx {ti} call {ci}: {call['op']} raised {cev['error']} but {diff}"))
+            if announced:
+                os.remove(announced)                  # the collection run is over
+            # (for the correspondence with the model only -- markers are no table content:) the in-flight markers of
+            # pre-built files this call left behind
+            cev["marks"] = len(prebuilt_markers(root) - marks_before)
             tev["calls"].append(cev)
         # ---- end of the transaction
         committed = False
@@ -578,7 +653,7 @@ def shrink_tx(case: Dict[str, Any], fails) -> Dict[str, Any]:
                             del d["txs"][i]["calls"][j]["files"][k]["stats"]
                             yield d
                     for k, f in enumerate(call["files"]):
-                        if len(f["rows"]) > 1:
+                        if len(f.get("rows", [])) > 1:
                             d = copy.deepcopy(c)
                             d["txs"][i]["calls"][j]["files"][k]["rows"] = f["rows"][:1]
                             yield d
@@ -594,7 +669,7 @@ def shrink_tx(case: Dict[str, Any], fails) -> Dict[str, Any]:
             for tx in d["txs"]:
                 for call in tx["calls"]:
                     for f in call["files"]:
-                        for r in f["rows"]:
+                        for r in f.get("rows", []):
                             r.pop(drop, None)
             yield d
 
